@@ -34,7 +34,10 @@ def one(patch, witness):
         env = dict(os.environ, AM_REPO=dst, AM_EVID=os.path.join(tmp, 'ev'), AM_CACHE=os.path.join(tmp, 'cache'), AM_NO_SELFTEST='1')
         if not witness:
             env['AM_NO_WITNESS'] = '1'
-        p = subprocess.run([os.path.join(VERIF, 'check'), 'all', '--tier', 'quick'], cwd=VERIF, env=env, stdout=subprocess.PIPE, stderr=subprocess.STDOUT, text=True)
+        try:
+            p = subprocess.run([os.path.join(VERIF, 'check'), 'all', '--tier', 'quick'], cwd=VERIF, env=env, stdout=subprocess.PIPE, stderr=subprocess.STDOUT, text=True, timeout=900)
+        except subprocess.TimeoutExpired:
+            return patch, 'ALARM', ['TIMEOUT: the checks did not finish in 15 minutes']
         fired = []
         for line in p.stdout.splitlines():
             if line.startswith('VIOLATION'):
